@@ -419,7 +419,7 @@ __strpd_card(struct strpd_s *d, const char *sp, struct dt_spec_s s, char **ep)
 		d->flags.wk_cnt = s.wk_cnt;
 		/* let everyone know d->c has a week-count in there */
 		d->flags.c_wcnt_p = 1;
-		res = 0;
+		res = 0 - (d->c < 0);
 		break;
 	}
 	/* assign end pointer */
